@@ -5,7 +5,7 @@ Agreement of the regenerated model with the hand model: the two generators with 
 (`extend_with_pull_piece_actions`, `must_complete_push_actions`) and the rule-only list `valid_actions_no_rep`.
 -/
 namespace Arimaa.RsAgree
-open Arimaa Arimaa.Gen Arimaa.Gen.Rs Arimaa.Rt
+open Arimaa Arimaa.Gen Arimaa.Gen.RsBase Arimaa.Rt
 
 theorem foldl_cond_append {α β : Type} (l : List α) (c : α → Bool) (g : α → β) (init : List β) :
     l.foldl (fun acc d => bif c d then acc ++ [g d] else acc) init =
